@@ -75,10 +75,11 @@ def render_plain(toks):
     out = []
     for a, b in zip(toks, toks[1:] + [None]):
         out.append(a.text)
+        nl = " \n" if a.text.endswith("-") else "\n"   # (no dash continuation)
         if b is None:
-            out.append("\n")
+            out.append(nl)
         elif b.kind in (G.NAME, G.BEGIN, G.ENDKW, G.END) and a.kind != G.EQ:
-            out.append("\n")
+            out.append(nl)
         else:
             out.append(" ")
     return "".join(out)
